@@ -196,9 +196,16 @@ func (g XGen) nonBlank(s string) bool {
 
 func (g XGen) genAttrs(t *rapid.T, e *XElem) {
 	na := rapid.IntRange(0, 3).Draw(t, "nattrs")
+	many := g.Wide && rapid.IntRange(0, 99).Draw(t, "manyattrs") == 0
+	if many {
+		na = rapid.IntRange(17, 40).Draw(t, "nmany") // more attributes than any small fixed-size buffer holds
+	}
 	seen := map[string]bool{}
 	for i := 0; i < na; i++ {
 		a := XAttr{Local: rapid.SampledFrom(xmlNames).Draw(t, "aname"), Value: g.text(t, "aval")}
+		if many {
+			a.Local = fmt.Sprintf("at%02d", (i*7)%41) // distinct, not in alphabetical order
+		}
 		if rapid.IntRange(0, 9).Draw(t, "emptyattr") == 0 {
 			a.Value = "" // an attribute may be empty, element text never reaches the Map empty
 		}
